@@ -1,6 +1,6 @@
 /-
 C05 — refinement: the verified checker of used values (`Model/UsedCheck.lean`) accepts, clause by clause,
-every box the block-tree model (`Model/BlockTree.lean`) produces — so the checker run on rendered documents
+every box the block-tree model (`Model/BlockTree.lean`) produces, in ltr and in rtl — so the checker run on rendered documents
 and the model compared with the real functions are tied by proof, not only by testing.
 Core Lean only.
 -/
@@ -59,8 +59,9 @@ theorem layoutBox_unfold (cb : CB) (cbH : Len) (x fs : Rat) (s : NStyle) (g : Ge
   obtain ⟨ml, hml, mr, hmr, w, hw, hg⟩ := hg
   simp only [pure, Except.pure, Except.ok.injEq] at hg
   subst hg
-  obtain ⟨w', x', e, _⟩ := minmax_last_pass cb.width cb.direction (aboxOfUsed u' x) r hr
-  have hk := specified_kept cb.width cb.direction { aboxOfUsed u' x with w := w', posX := x' }
+  obtain ⟨w', e, _⟩ := minmax_last_pass cb.width cb.direction (aboxOfUsed u' x) r hr
+  have hk := specified_kept cb.width cb.direction
+    { aboxOfUsed u' x with w := w', posX := (aboxOfUsed u' x).posX }
   rw [← e] at hk
   obtain ⟨_, _, _, hpl, hpr, hbl, hbr, _⟩ := hk
   exact ⟨r, hr, lenToRat_ok hml, lenToRat_ok hmr, lenToRat_ok hw, rfl, hpl, hpr, hbl, hbr, rfl, rfl, rfl, rfl⟩
@@ -76,8 +77,8 @@ theorem minmax_equation_or_evidence (cbw : Rat) (dir : Dir) (b r : ABox)
       (b.w = some w ∨ w = b.minW ∨ b.maxW = .fin w) ∧
       ((b.ml ≠ none ∧ b.mr ≠ none) ∨
        ((b.ml = none → l = 0) ∧ (b.mr = none → m = 0) ∧ l + b.bl + b.pl + w + b.pr + b.br + m > cbw))) := by
-  obtain ⟨w', x', e, hw'⟩ := minmax_last_pass cbw dir b r h
-  by_cases hov : OverC cbw { b with w := w', posX := x' }
+  obtain ⟨w', e, hw'⟩ := minmax_last_pass cbw dir b r h
+  by_cases hov : OverC cbw { b with w := w', posX := b.posX }
   · right
     obtain ⟨hw, hl, hm, _⟩ := overconstrained_geometry cbw dir _ hov
     obtain ⟨w, hww, hcase⟩ := hov
@@ -94,7 +95,7 @@ theorem minmax_equation_or_evidence (cbw : Rat) (dir : Dir) (b r : ABox)
         refine ⟨?_, ?_, ?_⟩
         · intro hn; simp [hn, orZero]
         · intro hn; simp [hn, orZero]
-        · have : ABox.specTotal { b with w := w', posX := x' } w = b.pb + w + orZero b.ml + orZero b.mr := rfl
+        · have : ABox.specTotal { b with w := w', posX := b.posX } w = b.pb + w + orZero b.ml + orZero b.mr := rfl
           rw [this] at hgt
           unfold ABox.pb at hgt
           grind
@@ -102,14 +103,16 @@ theorem minmax_equation_or_evidence (cbw : Rat) (dir : Dir) (b r : ABox)
     rw [e]
     exact (width_equation_partial cbw dir _ hov).1
 
-/-- **Refinement, one box, ltr**: every box the tree model lays out in an `ltr` containing block passes
-all horizontal clauses of the checker exactly (tolerance 0): non-negative sizes, `min-width ≤ width`
-(`≤ max-width` when `min ≤ max`), margin-left edge at the parent's content edge, and the width equation or
-the evidence of over-constraint. -/
+/-- **Refinement, one box, ltr and rtl** (full strength since /repo 165e254; before, the rtl half needed
+"at most the last pass is over-constrained"): every box the tree model lays out passes all horizontal
+clauses of the checker exactly (tolerance 0): non-negative sizes, `min-width ≤ width` (`≤ max-width` when
+`min ≤ max`), margin-left edge at the parent's content edge in ltr / margin-right edge at its end in rtl,
+and the width equation or the evidence of over-constraint. -/
 theorem layoutBox_accepted (pw : Rat) (dir : Dir) (cbH : Len) (x fs : Rat) (s : NStyle) (g : Geo) (u : Used)
-    (rtl : Bool) (h : layoutBox (.box pw dir) cbH x fs s = .ok (g, u)) (hnn : NonNegUsed u)
-    (hflush : ∀ r, blockLevelWidthMinMax (.box pw dir) (aboxOfUsed u x) = .ok r → EdgeFlush pw dir x r) :
+    (rtl : Bool) (h : layoutBox (.box pw dir) cbH x fs s = .ok (g, u)) (hnn : NonNegUsed u) :
     nodeOk 0 { cx := x, pw := pw, prtl := dir == .rtl } (uboxOf g u rtl) = true := by
+  have hflush : ∀ r, blockLevelWidthMinMax (.box pw dir) (aboxOfUsed u x) = .ok r → EdgeFlush pw dir x r :=
+    fun r hr => edge_flush_minmax pw dir (aboxOfUsed u x) r hr
   obtain ⟨r, hr, hml, hmr, hw, hx, hpl, hpr, hbl, hbr, hpt, hpb, hbt, hbb⟩ :=
     layoutBox_unfold _ cbH x fs s g u h
   obtain ⟨p1, p2, p3, p4, p5, p6, p7, p8, p9⟩ := hnn
@@ -121,8 +124,8 @@ theorem layoutBox_accepted (pw : Rat) (dir : Dir) (cbH : Len) (x fs : Rat) (s : 
   simp only [aboxOfUsed] at hmin hmax
   -- what the last pass keeps
   have hkept : r.bl = g.bl ∧ r.pl = g.pl ∧ r.pr = g.pr ∧ r.br = g.br ∧ r.isColumn = false := by
-    obtain ⟨w'', x'', e, _⟩ := minmax_last_pass pw dir (aboxOfUsed u x) r hr
-    have hk := specified_kept pw dir { aboxOfUsed u x with w := w'', posX := x'' }
+    obtain ⟨w'', e, _⟩ := minmax_last_pass pw dir (aboxOfUsed u x) r hr
+    have hk := specified_kept pw dir { aboxOfUsed u x with w := w'', posX := (aboxOfUsed u x).posX }
     rw [← e] at hk
     obtain ⟨_, _, _, k1, k2, k3, k4, _, _, k7⟩ := hk
     simp only [aboxOfUsed] at k1 k2 k3 k4 k7
@@ -239,23 +242,19 @@ theorem layoutBox_accepted (pw : Rat) (dir : Dir) (cbH : Len) (x fs : Rat) (s : 
   unfold nodeOk nodeVerdict
   simp only [hnonneg, hmm, hmh, hed, hequ, hk, Bool.not_true, Bool.false_eq_true, if_false, Option.isNone_none]
 
-/-- **Refinement, one box, ltr** (no further hypothesis). -/
+/-- **Refinement, one box, ltr**. -/
 theorem layoutBox_accepted_ltr (pw : Rat) (cbH : Len) (x fs : Rat) (s : NStyle) (g : Geo) (u : Used)
     (rtl : Bool) (h : layoutBox (.box pw .ltr) cbH x fs s = .ok (g, u)) (hnn : NonNegUsed u) :
     nodeOk 0 { cx := x, pw := pw, prtl := false } (uboxOf g u rtl) = true :=
   layoutBox_accepted pw .ltr cbH x fs s g u rtl h hnn
-    (fun r hr => edge_flush_minmax_ltr pw .ltr (aboxOfUsed u x) r hr (Or.inl rfl))
 
-/-- **Refinement, one box, rtl — partial**: accepted when at most the last pass of the min/max wrapper is
-over-constrained (first pass not over-constrained, `min-width ≤ max-width`); without this the model — like
-the code — fails the `edge` clause (`Witness.C05.rtl_shift_accumulates`: the checker *rejects* that
-output, see the example below). -/
-theorem layoutBox_accepted_rtl_partial (pw : Rat) (cbH : Len) (x fs : Rat) (s : NStyle) (g : Geo) (u : Used)
-    (rtl : Bool) (h : layoutBox (.box pw .rtl) cbH x fs s = .ok (g, u)) (hnn : NonNegUsed u)
-    (hfirst : ¬ OverC pw (aboxOfUsed u x)) (hmm : ∀ m, u.maxWidth = .fin m → u.minWidth ≤ m) :
+/-- **Refinement, one box, rtl** — every input (was `layoutBox_accepted_rtl_partial` with the hypotheses
+"first pass not over-constrained, `min-width ≤ max-width`" until the repair of
+`rtl-minmax-shift-accumulates`). -/
+theorem layoutBox_accepted_rtl (pw : Rat) (cbH : Len) (x fs : Rat) (s : NStyle) (g : Geo) (u : Used)
+    (rtl : Bool) (h : layoutBox (.box pw .rtl) cbH x fs s = .ok (g, u)) (hnn : NonNegUsed u) :
     nodeOk 0 { cx := x, pw := pw, prtl := true } (uboxOf g u rtl) = true :=
   layoutBox_accepted pw .rtl cbH x fs s g u rtl h hnn
-    (fun r hr => edge_flush_minmax_partial pw .rtl (aboxOfUsed u x) r hr hfirst hmm)
 
 /-! ### whole trees -/
 
@@ -324,18 +323,34 @@ theorem layoutKidsT_entries (cb : CB) (cbH : Len) (x : Rat) (d : Dir) (fs : Rat)
     · exact layoutKidsT_entries cb cbH x d fs ns b hb p hp
 end
 
-/-- **Refinement, whole trees** (`check (model x) = true`): in the layout of any tree of blocks by the
-model, every box laid out in an `ltr` containing block (with non-negative resolved paddings, borders and
-`min-width`) passes every horizontal clause of the verified checker, with tolerance 0, in the context of
-its own containing block. -/
+/-- Every containing block of the traced layout is a box (never the `(width, height)` tuple form) as
+soon as the outermost one is. -/
+private theorem cb_is_box (cb : CB) : (∃ pw d, cb = .box pw d) → CB.box cb.width cb.direction = cb := by
+  rintro ⟨pw, d, rfl⟩; rfl
+
+/-- **Refinement, whole trees, ltr and rtl** (`check (model x) = true`): in the layout of any tree of blocks
+by the model, every box (with non-negative resolved paddings, borders and `min-width`) laid out in a box
+containing block of either direction passes every horizontal clause of the verified checker, with
+tolerance 0, in the context of its own containing block. -/
+theorem layoutNode_accepted (cb : CB) (cbH : Len) (x : Rat) (d : Dir) (fs : Rat) (n : Node)
+    (out : List Placed) (h : layoutNodeT cb cbH x d fs n = .ok out) :
+    ∀ p ∈ out, (∃ pw dir, p.cb = .box pw dir) → NonNegUsed p.u →
+      nodeOk 0 { cx := p.x, pw := p.cb.width, prtl := p.cb.direction == .rtl }
+        (uboxOf p.g p.u (p.dir == .rtl)) = true := by
+  intro p hp hbox hnn
+  obtain ⟨cbH', fs', s', hb⟩ := layoutNodeT_entries cb cbH x d fs n out h p hp
+  rw [← cb_is_box p.cb hbox] at hb
+  exact layoutBox_accepted p.cb.width p.cb.direction cbH' p.x fs' s' p.g p.u _ hb hnn
+
+/-- The ltr instance under its former name. -/
 theorem layoutNode_accepted_ltr (cb : CB) (cbH : Len) (x : Rat) (d : Dir) (fs : Rat) (n : Node)
     (out : List Placed) (h : layoutNodeT cb cbH x d fs n = .ok out) :
     ∀ p ∈ out, (∃ pw, p.cb = .box pw .ltr) → NonNegUsed p.u →
       nodeOk 0 { cx := p.x, pw := p.cb.width, prtl := false } (uboxOf p.g p.u (p.dir == .rtl)) = true := by
   intro p hp ⟨pw, hcb⟩ hnn
-  obtain ⟨cbH', fs', s', hb⟩ := layoutNodeT_entries cb cbH x d fs n out h p hp
-  rw [hcb] at hb ⊢
-  exact layoutBox_accepted_ltr pw cbH' p.x fs' s' p.g p.u _ hb hnn
+  have := layoutNode_accepted cb cbH x d fs n out h p hp ⟨pw, .ltr, hcb⟩ hnn
+  rw [hcb] at this ⊢
+  exact this
 
 /-- Non-vacuity: a parent of 200px with a centred child of 50% width and a grandchild with paddings. -/
 def exStyle : NStyle where
@@ -370,12 +385,22 @@ example : (match layoutNodeT (.box 200 .ltr) none 0 .ltr 16 exNode with
     | .error _ => []) = [(0, 0, 200, 0), (0, 50, 100, 50), (50, 0, 82, 0)] := by
   decide +kernel
 
-/-- The hypotheses of the rtl case are necessary, and the checker sees it: on the input of the known
-finding `rtl-minmax-shift-accumulates` (`width: 200px; max-width: 50px` in a 100px rtl containing block)
-the model — like the code — puts the box at x = −50, and the checker rejects it with `edge`. -/
+/-- Regression (`fixed: rtl-minmax-shift-accumulates`, /repo 165e254): on `width: 200px; max-width: 50px` in
+a 100px rtl containing block the model — like the code — now puts the 50px box at x = 50 (it used to be
+−50: one shift per pass of the min/max wrapper) and the checker accepts it. -/
 example : (match layoutBox (.box 100 .rtl) none 0 16 { exStyle with width := .px 200, maxW := .px 50 } with
     | .ok (g, u) => (g.x, nodeVerdict 0 { cx := 0, pw := 100, prtl := true } (uboxOf g u true))
-    | .error _ => (0, none)) = (-50, some "edge") := by
+    | .error _ => (0, some "error")) = (50, none) := by
+  decide +kernel
+
+/-- Non-vacuity of the rtl half on a tree: an rtl parent of 200px, an over-constrained child clamped by
+`max-width`, a grandchild clamped by `min-width`: all three accepted. -/
+example : (match layoutNodeT (.box 200 .rtl) none 0 .rtl 16
+      (.mk exStyle [.mk { exStyle with width := .px 300, maxW := .px 80 }
+        [.mk { exStyle with width := .px 10, minW := .px 120, ml := .px 5 } []]]) with
+    | .ok l => l.map (fun p => (p.x, p.g.x, p.g.w,
+        nodeVerdict 0 { cx := p.x, pw := p.cb.width, prtl := p.cb.direction == .rtl } (uboxOf p.g p.u true)))
+    | .error _ => []) = [(0, 0, 200, none), (0, 120, 80, none), (120, 75, 120, none)] := by
   decide +kernel
 
 end Wp.C05Refine
